@@ -44,7 +44,8 @@ func vNewEntry() raft.Log {
 	l.Type = raft.LogType(nondetU8())
 	l.Data = []byte(nondetString(2))
 	l.Extensions = []byte(nondetString(1))
-	l.AppendedAt = time.Unix(0, nondetI64In(-(1 << 60), 1<<60))
+	// entries from peers that do not stamp their entries carry the zero time
+	l.AppendedAt = verifIteT(nondetBool(), time.Unix(0, nondetI64In(-(1<<60), 1<<60)), time.Time{})
 	return l
 }
 
